@@ -476,6 +476,24 @@ structure MatrixFacts (v v' : Pairwise) (w : Cand) : Prop where
   raised : Raised v v' w
   cands : ∀ c ∈ candidates v', c ∈ candidates v
 
+/-- a candidate other than `w` that stands in the election is, on the lifted ballot, in a counted pair with `w` -/
+theorem counts_lift_pair_with_w (U : List Cand) (w : Cand) (i : Nat) (b : Ballot) (c : Cand) (hcw : c ≠ w)
+    (hc : c ∈ ballotCands b ∨ c ∈ U) :
+    counts U (lift w i b) (c, w) ∨ counts U (lift w i b) (w, c) := by
+  by_cases hcb : c ∈ ballotCands b
+  · have hcs : c ∈ ballotCands (strip w b) := mem_ballotCands_strip.mpr ⟨hcb, hcw⟩
+    have hsplit : strip w b = (strip w b).take i ++ (strip w b).drop i := (List.take_append_drop i _).symm
+    rw [hsplit, ballotCands_append, List.mem_append] at hcs
+    rcases hcs with h | h
+    · left; rw [counts_iff, above_lift]; left; right; right; exact ⟨rfl, h⟩
+    · right; rw [counts_iff, above_lift]; left; right; left; exact ⟨rfl, h⟩
+  · right
+    rw [counts_iff]; right
+    refine ⟨mem_ballotCands_lift.mpr (Or.inl rfl), ?_, fun h => hcb ((mem_cands_lift_iff hcw).mp h)⟩
+    rcases hc with h | h
+    · exact absurd h hcb
+    · exact h
+
 theorem matrixFacts_lift (p : RProfile) (w : Cand) (i : Nat) (b : Ballot) (hp : ProfileOK p) (hb : b ∈ dkeys p)
     (hunit : ∀ bw ∈ p, bw.1 = b → 1 ≤ bw.2) (hok : liftOK w i b = true) (hw : w ∈ candidates (pairwiseOf p)) :
     MatrixFacts (pairwiseOf p) (pairwiseOf (replaceUnit p b (lift w i b))) w := by
@@ -590,5 +608,73 @@ theorem mem_candidates_bullet (p : RProfile) (w : Cand) (hp : ProfileOK p) (hw :
   have := fst_mem_candidates (v := pairwiseOf (addTo p [RankItem.one w] 1)) he'
   rw [hk'] at this
   exact this
+
+theorem mem_candidates_of_counts (p : RProfile) (b : Ballot) (hb : b ∈ dkeys p) (x y : Cand)
+    (h : counts (candUniverse p) b (x, y)) : x ∈ candidates (pairwiseOf p) ∧ y ∈ candidates (pairwiseOf p) := by
+  have hk : (x, y) ∈ dkeys (condorcetU true (candUniverse p) p) := (mem_dkeys_condorcetU _ p _).mpr ⟨b, hb, h⟩
+  obtain ⟨e, he, hk'⟩ := List.mem_map.mp hk
+  have h1 := fst_mem_candidates (v := pairwiseOf p) he
+  have h2 := snd_mem_candidates (v := pairwiseOf p) he
+  rw [hk'] at h1 h2
+  exact ⟨h1, h2⟩
+
+/-- no candidate drops out of the matrix when `w` is lifted on one unit of one ballot -/
+theorem candidates_lift_superset (p : RProfile) (w : Cand) (i : Nat) (b : Ballot) (hp : ProfileOK p) (hb : b ∈ dkeys p)
+    (hok : liftOK w i b = true) (hw : w ∈ candidates (pairwiseOf p)) (c : Cand) (hc : c ∈ candidates (pairwiseOf p)) :
+    c ∈ candidates (pairwiseOf (replaceUnit p b (lift w i b))) := by
+  by_cases hcw : c = w
+  · rw [hcw]; exact mem_candidates_lift p w i b hp hb hok hw
+  have hwa := candidates_sub_arc p w hw
+  have hU := candUniverse_eq (arc_replaceUnit p b (lift w i b) w hb hwa (fun c => mem_ballotCands_lift))
+  obtain ⟨e, he, hce⟩ := mem_candidates.mp hc
+  have hk : e.1 ∈ dkeys (condorcetU true (candUniverse p) p) := List.mem_map.mpr ⟨e, he, rfl⟩
+  obtain ⟨bx, hbx, hcnt⟩ := (mem_dkeys_condorcetU _ p e.1).mp hk
+  -- a counted pair of the new profile with endpoint c is all we need
+  have hdone : ∀ (b' : Ballot), b' ∈ dkeys (replaceUnit p b (lift w i b)) → ∀ x y, (c = x ∨ c = y) →
+      counts (candUniverse p) b' (x, y) → c ∈ candidates (pairwiseOf (replaceUnit p b (lift w i b))) := by
+    intro b' hb' x y hxy hcn
+    rw [← hU] at hcn
+    obtain ⟨h1, h2⟩ := mem_candidates_of_counts _ b' hb' x y hcn
+    rcases hxy with rfl | rfl <;> assumption
+  have hpair : e.1 = (e.1.1, e.1.2) := rfl
+  rw [hpair] at hcnt
+  rcases mem_dkeys_replaceUnit_of_mem (b := b) (b' := lift w i b) hbx with rfl | hbx'
+  · -- the pair was counted by the changed ballot
+    have hnew := new_mem_dkeys_replaceUnit p bx (lift w i bx)
+    by_cases h1 : e.1.1 = w
+    · -- pair (w, c)
+      have hc2 : c = e.1.2 := by
+        rcases hce with h | h
+        · exact absurd (h.trans h1) hcw
+        · exact h
+      have hmem := (counts_mem _ bx e.1.1 e.1.2 hcnt).2
+      rw [← hc2] at hmem
+      rcases counts_lift_pair_with_w (candUniverse p) w i bx c hcw hmem with h | h
+      · exact hdone _ hnew c w (Or.inl rfl) h
+      · exact hdone _ hnew w c (Or.inr rfl) h
+    · by_cases h2 : e.1.2 = w
+      · -- pair (c, w)
+        have hc1 : c = e.1.1 := by
+          rcases hce with h | h
+          · exact h
+          · exact absurd (h.trans h2) hcw
+        have hmem := (counts_mem _ bx e.1.1 e.1.2 hcnt).1
+        rw [← hc1] at hmem
+        rcases counts_lift_pair_with_w (candUniverse p) w i bx c hcw (Or.inl hmem) with h | h
+        · exact hdone _ hnew c w (Or.inl rfl) h
+        · exact hdone _ hnew w c (Or.inr rfl) h
+      · exact hdone _ hnew e.1.1 e.1.2 hce ((counts_lift_same _ w i bx _ _ h1 h2).mpr hcnt)
+  · exact hdone bx hbx' e.1.1 e.1.2 hce hcnt
+
+theorem candidates_bullet_superset (p : RProfile) (w : Cand) (hw : w ∈ allRankedCandidates p) (c : Cand)
+    (hc : c ∈ candidates (pairwiseOf p)) : c ∈ candidates (pairwiseOf (addTo p [RankItem.one w] 1)) := by
+  have hU := candUniverse_eq (arc_addTo p [RankItem.one w] (by simpa [ballotCands, RankItem.cands] using hw))
+  obtain ⟨e, he, hce⟩ := mem_candidates.mp hc
+  have hk : e.1 ∈ dkeys (condorcetU true (candUniverse p) p) := List.mem_map.mpr ⟨e, he, rfl⟩
+  obtain ⟨bx, hbx, hcnt⟩ := (mem_dkeys_condorcetU _ p e.1).mp hk
+  have hpair : e.1 = (e.1.1, e.1.2) := rfl
+  rw [hpair, ← hU] at hcnt
+  obtain ⟨h1, h2⟩ := mem_candidates_of_counts _ bx ((mem_dkeys_addTo p _ 1 bx).mpr (Or.inl hbx)) _ _ hcnt
+  rcases hce with rfl | rfl <;> assumption
 
 end VL.Mono
